@@ -15,6 +15,7 @@ pub mod sink;
 pub mod source;
 pub mod stream;
 pub mod trace;
+pub mod u256;
 pub mod writer_hist;
 pub mod wstream;
 
